@@ -52,6 +52,12 @@ def gen_session(rng):
     c = W.gen_init(rng, 4, 10)
     c["kind"] = "session"
     c["x_none"] = False
+    zero_at = None
+    if rng.random() < 0.3:
+        # an abscissa that is exactly 0 in the interior (0 is falsy in Python)
+        xs = [Fraction(v) for v in c["x"]]
+        zero_at = rng.randrange(1, len(xs) - 1)
+        c["x"] = [str(v - xs[zero_at]) for v in xs]
     ops = []
     for _ in range(rng.randint(0, 2)):
         ops.append(W.gen_domain_op(rng, ["shift_x", "scale_x", "repeat", "append"]))
@@ -69,13 +75,19 @@ def gen_session(rng):
         ops.append(W.gen_domain_op(rng, ["trunc_v", "trunc_i"]))
     c["ops"] = ops
     qs = []
+    if zero_at is not None and all(o["op"] in ("trunc_i",) for o in ops) is False:
+        pass
+    if zero_at is not None:
+        c["ops"] = []          # keep the zero sample where it is
+        qs.append({"q": "slice_v", "start": f"@{zero_at}", "stop": None, "step": 1})
+        qs.append({"q": "slice_v", "start": None, "stop": f"@{zero_at}", "step": 1})
     for _ in range(rng.randint(1, 4)):
         if rng.random() < 0.5:
             qs.append({"q": "slice_i", "start": rng.randint(-1, 6), "stop": rng.choice([None, rng.randint(-3, 14)]),
                        "step": rng.randint(1, 3)})
         else:
-            a = rng.choice([None, "@0", "@1", "@2", "1/3"])
-            b2 = rng.choice([None, "@-1", "@2", "@3", "7/3"])
+            a = rng.choice([None, "@0", "@1", "@2", "1398101/4194304"])
+            b2 = rng.choice([None, "@-1", "@2", "@3", "9786709/4194304"])
             qs.append({"q": "slice_v", "start": a, "stop": b2, "step": rng.choice([1, 1, 2])})
     c["queries"] = qs
     return c
@@ -182,7 +194,7 @@ def oracle(c, io):
                 ll = l * (px[-1] - px[0]) + px[0] if op["lr"] else l
                 rr = r * (px[-1] - px[0]) + px[0] if op["rr"] else r
                 a, b = expected_cut(px, ll, rr)
-                if not np.allclose(s[kx], px[a:b + 1], rtol=0, atol=0) or s[ky] != py[a:b + 1]:
+                if s[kx] != px[a:b + 1] or s[ky] != py[a:b + 1]:
                     near = any(abs(v - ll) < 1e-9 * max(1, abs(v)) or abs(v - rr) < 1e-9 * max(1, abs(v)) for v in px)
                     if near:
                         continue    # a bound within rounding distance of a computed sample: not judged
